@@ -13,8 +13,14 @@ from common import Cvec, Cx, R, Rmat, Rvec, cfl, fl, flmat, max_rel_err
 
 from common import wiring_pre_build as pre_build  # noqa: E402,F401
 
-LEAN_MODULES = ["PyomaVerif.Props.C17", "PyomaVerif.Props.C17Jac", "PyomaVerif.Props.C17Vec", "PyomaVerif.Mutants.C17", "PyomaVerif.Mutants.C17Vec", "PyomaVerif.Props.WiringRun", "PyomaVerif.Props.WiringCalls", "PyomaVerif.Props.C17Table", "PyomaVerif.Mutants.C17Table", "PyomaVerif.Props.C17Cell"]
+LEAN_MODULES = ["PyomaVerif.Props.C17", "PyomaVerif.Props.C17Jac", "PyomaVerif.Props.C17Vec", "PyomaVerif.Mutants.C17", "PyomaVerif.Mutants.C17Vec", "PyomaVerif.Props.WiringRun", "PyomaVerif.Props.WiringCalls", "PyomaVerif.Props.C17Table", "PyomaVerif.Mutants.C17Table", "PyomaVerif.Props.C17Cell", "PyomaVerif.Props.C12Build"]
 THEOREMS = [
+    # clause 1 on the function itself (Model/BuildHank.buildHank, op build_hank, stream build_hank[unc-guard]): calc_unc with a method
+    # other than cov_mm never returns; a second component other than None only for cov_mm with calc_unc is True; the returned
+    # factor is covFactor of the stacks and of the N the function itself formed
+    "PV.C12.C12_dispatch_attrUnc",
+    "PV.C12.C17_unc_only_cov_mm",
+    "PV.C12.C17_build_factor",
     # the exact sequence of core-routine calls of the run()/mpe() body and the exact set of parameters bound at each (regenerated call table)
     "PV.WiringCalls.C12_ssidat_run_calls",
     # call-site wiring of the class layer, regenerated from /repo on every run (translate_wiring.py)
@@ -725,8 +731,17 @@ def corr_q_and_var(ctx):
     ctx.count("corr_q_cases", done)
 
 
+def corr_unc_guard(ctx):
+    """build_hank[dispatch|whole] of harness/c12.py (the whole function against the model function buildHank), the part that
+    bears on clause 1: calc_unc in {False, True, 1} x method strings; cov_mm with calc_unc=True and nb = 0, 1, 2.."""
+    import c12
+
+    c12.corr_build_hank(ctx, _ssi().build_hank, n_dispatch=ctx.n(24, 200), n_short=0, n_whole=ctx.n(12, 200))
+
+
 def correspondence(ctx):
     corr_factor(ctx)
+    corr_unc_guard(ctx)
     corr_blocks(ctx)
     corr_vec_kron(ctx)
     corr_vom(ctx)
